@@ -1,5 +1,9 @@
 (** Property C09 — every atom of an atomistic result has a complete, standard valence.
-    Only statements, each closed by [exact]; proofs live in Hydro/HydrogensProofs.v. *)
+    Only statements, each closed by [exact]; the proofs live in Hydro/HydrogensProofs.v.
+    The valence table, the attributes of a fresh hydrogen, copy_attrs and the constants handed to
+    pysmiles are the definitions GENERATED in Gen/HydroGen.v (by calling the installed pysmiles and by
+    parsing pysmiles_utils.py) on every run.  pysmiles' correct_aromatic_rings is a transcript: the
+    theorems speak about the steps after it, for every graph it may leave behind. *)
 From Coq Require Import String.
 From Coq Require Import List Ascii ZArith Bool.
 From CGV Require Import Base.PyBase Base.PyVal Base.NxGraph Gen.HydroGen Hydro.Hydrogens Hydro.HydroDefs
@@ -8,8 +12,82 @@ Import ListNotations.
 Open Scope Z_scope.
 
 (** every row of the valence table generated from the installed pysmiles is non-empty, non-negative
-    and strictly ascending (finite check over the generated table: the bound is the table) *)
-Theorem C09_valence_table_wf : table_wf valence_table = true.
+    and strictly ascending.  BOUNDED: a finite check over the generated table (14 elements x 5
+    charges); the bound is the table. *)
+Theorem C09_valence_table_wf_bounded : table_wf valence_table = true.
 Proof. exact valence_table_wf. Qed.
 
-Print Assumptions C09_valence_table_wf.
+(** bonds_missing on a well-formed row, in half units (b2 = twice the bond sum): *)
+Theorem C09_bonds_missing_spec : forall val b2, row_wf val = true -> fits val b2 ->
+  exists v, least_fitting val b2 v /\ missing_of val b2 = Z.quot (2 * v - b2) 2 /\
+            0 <= missing_of val b2 /\
+            (Z.even b2 = true -> b2 + 2 * missing_of val b2 = 2 * v) /\
+            (Z.even b2 = false -> b2 + 2 * missing_of val b2 = 2 * v - 1).
+Proof. exact bonds_missing_spec. Qed.
+
+(** for every (element, charge) row of the generated table and every bond sum within the largest
+    valence: stored hydrogens = least fitting valence - bonds, and the orders then add up to it *)
+Theorem C09_valence_complete : forall e q val b2, table_row e q = Some (Some val) -> fits val b2 ->
+  let h := Z.max (missing_of val b2) 0 in
+  exists v, least_fitting val b2 v /\
+            (Z.even b2 = true -> 2 * h = 2 * v - b2 /\ b2 + 2 * h = 2 * v) /\
+            (Z.even b2 = false -> 2 * h = 2 * v - b2 - 1).
+Proof. exact valence_complete. Qed.
+
+(** one step of fill_valence as rebuild_h_atoms runs it (respect_hcount and the reset value are the
+    generated constants: an edit of those keywords breaks this proof) *)
+Theorem C09_fill_step_spec : forall g k n b val,
+  gfind k g = Some n -> is_H (na n) = false ->
+  aget (S "hcount") (na n) = Some (VInt rebuild_reset_value) ->
+  sum_orders (nadj n) = Ok b -> valence_of (na n) = Ok val ->
+  fill_step rebuild_respect_hcount g k
+  = Ok (set_node_attr g k (S "hcount") (VInt (Z.max (missing_of val b) 0))).
+Proof. exact fill_step_spec. Qed.
+
+(** descriptors contribute no edges: a surplus descriptor leaves valence that is filled with H *)
+Theorem C09_unused_descriptor_is_H : forall g j v k,
+  bonds_missing (set_node_attr g j (S "bonding") v) k = bonds_missing g k.
+Proof. exact unused_descriptor_is_H. Qed.
+
+(** every added hydrogen: exactly one edge, order 1, to its anchor; existing edges untouched *)
+Theorem C09_add_h_degree_one : forall g k n idxs,
+  gfind k g = Some n -> NoDup idxs -> (forall j, In j idxs -> gfind j g = None) ->
+  (forall j, In j idxs -> adj_get j (nadj n) = None) ->
+  let g' := attach_h g k idxs in
+  (forall j, In j idxs ->
+     gfind j g' = Some {| nk := j; na := h_atom_defaults; nadj := [(k, h_edge_attrs)] |}) /\
+  gfind k g' = Some {| nk := k; na := na n; nadj := nadj n ++ map (fun j => (j, h_edge_attrs)) idxs |} /\
+  (forall i, i <> k -> ~ In i idxs -> gfind i g' = gfind i g).
+Proof. exact add_h_degree_one. Qed.
+(** … and the keys add_explicit_hydrogens picks satisfy the freshness hypotheses *)
+Theorem C09_fresh_keys : forall g h, NoDup (fresh_keys g h) /\ forall j, In j (fresh_keys g h) -> gfind j g = None.
+Proof. intros g h. split; [exact (fresh_keys_nodup g h)|exact (fresh_keys_fresh g h)]. Qed.
+
+(** copy_attrs semantics of the inheritance loop *)
+Theorem C09_h_inherits : forall copy_attrs g k n anchor rest m,
+  gfind k g = Some n -> wants_inherit (na n) = true ->
+  neighbors g k = anchor :: rest -> anchor <> k -> gfind anchor g = Some m ->
+  exists g', inherit_step copy_attrs g k = Ok g' /\
+    (forall j, j <> k -> gfind j g' = gfind j g) /\
+    exists n', gfind k g' = Some n' /\ nadj n' = nadj n /\
+      forall attr, aget attr (na n') =
+        match aget attr (na n) with
+        | Some v => Some v
+        | None => if str_in attr copy_attrs then Some (getd attr (na m) VNone) else None
+        end.
+Proof. exact h_inherits. Qed.
+
+(** non-vacuity *)
+Example C09_nonvacuous_valence :
+  table_row (S "C") 0 = Some (Some [4]) /\ fits [4] 4 /\ missing_of [4] 4 = 2 /\ missing_of [4] 6 = 1 /\
+  table_row (S "N") 0 = Some (Some [3; 5]) /\ missing_of [3; 5] 8 = 1 /\ missing_of [3; 5] 9 = 0.
+Proof. exact valence_complete_nonvacuous. Qed.
+
+Print Assumptions C09_valence_table_wf_bounded.
+Print Assumptions C09_bonds_missing_spec.
+Print Assumptions C09_valence_complete.
+Print Assumptions C09_fill_step_spec.
+Print Assumptions C09_unused_descriptor_is_H.
+Print Assumptions C09_add_h_degree_one.
+Print Assumptions C09_fresh_keys.
+Print Assumptions C09_h_inherits.
